@@ -111,6 +111,7 @@ class Check:
             self.summaries.update(r.summaries)
             for k, v in r.loops.items():
                 self.loops[k] = max(self.loops.get(k, 0), v)
+            self.symx_s = max(self.symx_s, getattr(r, 'secs', 0.0)) if len(runs) > 1 else self.symx_s + getattr(r, 'secs', 0.0)
             for p in r.paths:
                 if p['end'] == 'error':
                     raise EngineError('symx run %s path %d: %s' % (r.id, p['id'], p.get('err')))
@@ -122,8 +123,11 @@ class Check:
         with self.lock:
             self.obls.append({'id': oid, 'desc': desc, 'expect': expect, 'status': status, 'solver': solver,
                               'secs': round(secs, 3), 'ok': ok, 'kind': kind})
-            if sample is not None and len(self.samples) < 6:
-                self.samples.append({'obligation': oid, 'desc': desc, 'smt': sample[:1500]})
+            if sample is not None:
+                own = oid.startswith(self.pid + '.')
+                n_own = sum(1 for s in self.samples if s['obligation'].startswith(self.pid + '.'))
+                if (own and n_own < 5) or (not own and len(self.samples) - n_own < 3):
+                    self.samples.append({'obligation': oid, 'desc': desc, 'smt': sample[:1500]})
         return ok
 
     def prove(self, oid, desc, script, expect='unsat', timeout=60.0, solvers=None, need_all=False):
